@@ -270,9 +270,10 @@ def consumed(f, call_block, path=()):
 # --------------------------------------------------------------------------- provenance (A4)
 
 class Prov:
-    __slots__ = ("params", "fields", "consts", "calls", "ops", "ints", "exact", "variants", "ppaths", "pwhole")
+    __slots__ = ("params", "fields", "consts", "calls", "ops", "ints", "exact", "variants", "ppaths", "pwhole", "cvals")
 
     def __init__(self):
+        self.cvals = set()     # hex bytes of evaluated constant memory (slices / arrays / pubkeys)
         self.pwhole = set()    # params used as a whole (no field path)
         self.ppaths = set()    # (param index, remaining field path)
         self.params = set()    # (param index)
@@ -287,6 +288,7 @@ class Prov:
     def update(self, o):
         self.ppaths |= o.ppaths
         self.pwhole |= o.pwhole
+        self.cvals |= o.cvals
         self.params |= o.params
         self.fields |= o.fields
         self.consts |= o.consts
@@ -310,6 +312,21 @@ class Prov:
                 "consts": sorted(k.split("::")[-1] for k in self.consts),
                 "calls": sorted(k.split("::", 1)[-1] for k in self.calls)[:40], "ops": sorted(self.ops),
                 "ints": sorted(self.ints)[:10], "variants": sorted("%s::%s" % (a.split("::")[-1], v) for a, v in self.variants), "exact": self.exact}
+
+
+def _collect_cvals(v, pv, depth=0):
+    """record evaluated constant memory (and referenced statics) of a const operand"""
+    if depth > 3 or not isinstance(v, dict):
+        return
+    for key in ("slice", "mem", "ptr"):
+        m = v.get(key)
+        if isinstance(m, dict):
+            if "static" in m:
+                pv.consts.add(m["static"])
+            if "hex" in m and m["hex"]:
+                pv.cvals.add(m["hex"])
+            for p in m.get("ptrs", []) or []:
+                _collect_cvals({"mem": p.get("to")}, pv, depth + 1)
 
 
 SAME_PATH_CALLS = {"branch", "into", "from", "clone", "deref", "deref_mut", "borrow", "borrow_mut", "as_ref", "as_mut",
@@ -372,6 +389,9 @@ class Slicer:
             ci = const_int(o)
             if ci is not None:
                 pv.ints.add(ci)
+            v = k.get("v")
+            if isinstance(v, dict):
+                _collect_cvals(v, pv)
 
     def _local(self, f, l, pv, depth, seen, path=(), at=None):
         if len(path) > 8:
@@ -490,6 +510,7 @@ class Slicer:
             pass
 
     def _merge_summary(self, pv, summ):
+        pv.cvals |= summ.cvals
         pv.fields |= summ.fields
         pv.consts |= summ.consts
         pv.calls |= summ.calls
